@@ -171,8 +171,8 @@ func c15Random(r *vh.Rand, explicit bool) c15In {
 			if r.Chance(1, 3) {
 				op.Forever = true
 			} else {
-				d := c15Pick(r, []int64{-c15H, -1, 1, c15H, 48 * c15H, 49 * c15H, 91 * c15D, 96 * c15D, 200 * c15D})
-				op.T = g.now + d // never equal to the current time (see the fixed scenario)
+				d := c15Pick(r, []int64{-c15H, -1, 0, 1, c15H, 48 * c15H, 49 * c15H, 91 * c15D, 96 * c15D, 200 * c15D})
+				op.T = g.now + d // d = 0: a hold ending at the current instant is expired at once
 				g.events = append(g.events, op.T-48*c15H)
 			}
 			in.Ops = append(in.Ops, op)
@@ -232,8 +232,9 @@ func c15Scoped() []c15In {
 	return out
 }
 
-// the recorded finding (KNOWN_FINDINGS key system-hold-until-now): a system hold whose end is exactly the current time
-// becomes a hold forever, because HoldRefresh reads the zero duration as "maximum"
+// regression case of a repaired defect (KNOWN_FINDINGS `fixed:` line, /repo commit c2c6542): a system hold whose end is
+// exactly the current time used to become a hold forever, because HoldRefresh reads the zero duration as "maximum"; it
+// must be expired at once
 func c15Finding() c15In {
 	return c15In{N: 1, LR: []int64{-c15H}, Ops: []c15Op{{K: "tick", D: c15H}, {K: "syshold", Snaps: []int{1}, T: c15H}, {K: "tick", D: c15D}}}
 }
